@@ -1156,11 +1156,11 @@ example : (List.range 4).map (C08.readIter memH vHr) = [1, 2, 0, 2] ∧
 end Mahotas.C12.Examples4
 
 
-/-! ## Round 4 — third table of access programs (`Model/C12Kernels3.lean`): `majority_filter` -/
+/-! ## Round 4 — third table of access programs (`Model/C12Kernels3.lean`): `majority_filter`, `locmin_max` -/
 
 open Mahotas Mahotas.C12 in
-/-- **C12-T4 (third table: confinement).** `C12_kernel_confined` for every kernel of `Kernel3` (today: `majority_filter`,
-a gather kernel reading `input.at(y+dy, x+dx)` on any strides): on every footprint with at least one owned array every
+/-- **C12-T4 (third table: confinement).** `C12_kernel_confined` for every kernel of `Kernel3` (`majority_filter`,
+a gather kernel reading `input.at(y+dy, x+dx)` on any strides, and `locmin_max` behind locmax/locmin/regmax/regmin): on every footprint with at least one owned array every
 step is `Within` the call (write set ⊆ outputs, read set ⊆ inputs ∪ outputs), and in every family of calls with pairwise
 disjoint outputs every compiled step is `Step.Confined t` — so `C12_concurrent_calls_independent` gives: after EVERY
 schedule each owned location equals the solo run. -/
@@ -1221,6 +1221,35 @@ theorem C12_majority_program_computes_model (kcs : List KCall) (t : Nat) (n rows
       then 1 else 0 :=
   majority_solo_value kcs t n rows cols vA vOut aA aOut hsh hr hc hk hne mA m hA hZ k hkn
 
+open Mahotas Mahotas.C12 in
+/-- **C12-T4 (tie: the locmin_max program computes `C14.locAt`).** Let call number `t` of ANY family of calls be `locmin_max`
+(minima or maxima; any views of the image and the result; `Bc` with its centre removed, as the wrappers of
+locmax/locmin/regmax/regmin pass it) on arrays `[aA, aBc]` → `[aOut, aFd]` (result, `filter_data_`), the image array distinct
+from both owned arrays and these from each other. If the initial memory presents the logical image `A` through the view `vA` —
+at every position the `ExtendNearest` rule delivers and at the addresses the array iterator visits — the result array is zero
+(`PyArray_FILLWBYTE(output, 0)`) and the result view does not overlap itself, then after the SOLO run of the compiled step
+program — one step per pixel that re-evaluates the neighbour test from the values READ and stores `1` or the old cell — the
+result location of pixel `k` holds `1` exactly when `C14.locAt isMin A (C14.neighbours bshape bc) (unravel k)` and `0`
+otherwise: the model the driver runs (`c14 kind=loc`, and `C08.locView` over views), proved equal to "no neighbour inside the
+image beats the pixel" in C14. With `C12_concurrent_calls_independent` the same marks are there after every complete
+interleaving with any other calls that have disjoint outputs. -/
+theorem C12_locminmax_program_computes_model (kcs : List KCall) (t : Nat) (isMin : Bool) (vA vOut vBc : C08.View)
+    (bc : Array Int) (aA aBc aOut aFd : Nat)
+    (hk : kcs[t]? = some ((Kernel3.locminmax isMin vA vOut vBc bc).call ⟨[aA, aBc], [aOut, aFd]⟩))
+    (hne1 : aA ≠ aOut) (hne2 : aA ≠ aFd) (hne3 : aOut ≠ aFd)
+    (A : Img Int) (hshape : A.shape = vA.shape) (hpos : ∀ d ∈ vA.shape, 0 < d) (m : Mem)
+    (hA : ∀ q q', fixPos .nearest vA.shape q = some q' →
+        m ((KLoc.mk aA (vA.addr (q'.map Int.toNat))).toLoc (kcs.map (·.call))) = A.getD q' 0)
+    (hC : ∀ k, k < shapeSize vA.shape →
+        m ((KLoc.mk aA (iterAddr vA k)).toLoc (kcs.map (·.call))) = A.getD (unravelI vA.shape k) 0)
+    (hZ : ∀ a, m ((KLoc.mk aOut a).toLoc (kcs.map (·.call))) = 0)
+    (hinj : ∀ k k', k < shapeSize vA.shape → k' < shapeSize vA.shape →
+        iterAddr vOut k = iterAddr vOut k' → k = k')
+    (k : Nat) (hkn : k < shapeSize vA.shape) :
+    solo (compile kcs) t m ((KLoc.mk aOut (iterAddr vOut k)).toLoc (kcs.map (·.call))) =
+      if C14.locAt isMin A (C14.neighbours vBc.shape bc) (unravelI vA.shape k) then 1 else 0 :=
+  locminmax_solo_value kcs t isMin vA vOut vBc bc aA aBc aOut aFd hk hne1 hne2 hne3 A hshape hpos m hA hC hZ hinj k hkn
+
 namespace Mahotas.C12.Examples4
 open Mahotas.C12.Examples2
 /-- non-vacuity: a 4×4 bool image in Fortran order (array 10), window 2, output array 20: the solo run of the compiled
@@ -1239,5 +1268,16 @@ example :
     (km.call cm).prog.length = 4 ∧
     ((km.call cm).prog.all (KStep.withinB cm)) = true ∧
     (km.raw.all (RStep.rolesOk km.arity)) = true := by
+  decide +kernel
+/-- a `locmax` call on `[5,3,7,0]` with neighbourhood `[1,0,1]` (centre removed) running concurrently with the majority call on
+disjoint outputs: interleaved = solo = `C14.locModel` -/
+example :
+    let kl : Kernel3 := .locminmax false v4 v4 v3 #[1, 0, 1]
+    let cl : Call := ⟨[10, 11], [30, 31]⟩
+    let contentL : List (KLoc × Val) := [(⟨10,0⟩,5),(⟨10,1⟩,3),(⟨10,2⟩,7),(⟨10,3⟩,0),(⟨11,0⟩,1),(⟨11,1⟩,0),(⟨11,2⟩,1)]
+    outOf [cl] (solo (compile [kl.call cl]) 0 (memOf [cl] contentL)) 30 4 = [1, 0, 1, 0] ∧
+    (C14.locModel false ⟨[4], #[5, 3, 7, 0]⟩ (C14.neighbours [3] #[1, 0, 1])).toList = [true, false, true, false] ∧
+    ((kl.call cl).prog.all (KStep.withinB cl)) = true ∧
+    (kl.raw.all (RStep.rolesOk kl.arity)) = true := by
   decide +kernel
 end Mahotas.C12.Examples4
